@@ -1,24 +1,30 @@
 (* Prop_C01.v -- C01: DPOP returns an optimal assignment on every DCOP and schedule.
-   Statements only (closed by [exact]); proofs are in P_Dpop.v, the model in M_Dpop.v.
+   Statements only (closed by [exact]); proofs are in P_Dpop.v and P_Dpop2*.v, the model in
+   M_Dpop.v, the executable hypothesis checker in M_DpopValid.v.
 
-   FULL STATEMENT OF THE PROPERTY (not yet a theorem; see design_notes/C01.md):
-     dpop_all_schedules : forall P (valid pseudo-tree) sched,
-        complete (run (dpop_proto P) sched) ->        (all started, no message in flight)
-        no EvRaise, every node emits EvFinished exactly once, the selected values form a total
-        in-domain assignment whose cost is the brute-force optimum of P for dc_mode P.
-   What is proved, for all inputs / sizes:
+   THE PROPERTY (last theorem of this file, proved for all sizes / inputs / schedules):
+     dpop_all_schedules : forall P sched, dpop_check P = true ->
+        no handler of a tree node raises on ANY schedule, and if the final configuration of
+        run (dpop_proto P) sched is complete (all tree nodes started, no message left in a channel
+        between tree nodes): every node finished, emitted EvFinished and EvSelect exactly once with a
+        value of its domain, and the assignment has the brute-force optimal cost of P (dcop_cost =
+        variable costs + all constraints) for dc_mode P, for any number of components.
+   Hypothesis: dpop_check P (executable, evaluated by the correspondence on every pseudo-tree
+   pydcop builds) -- forest shape with converse links, non-empty domains, kept constraints mention
+   only the node and its ancestors, every child is tied to its parent by a cost kept in its
+   subtree, the ownership filter keeps every constraint exactly once.  dpop_check_valid is its
+   soundness; the intermediate theorems are stated with the Prop-level validity dpop_valid.
+   Also proved, for all inputs / sizes:
      - the meaning of join / projection / slice / find_arg_optimal            (full)
      - dpop_util_sem_partial : the UTIL a node sends is one exact dynamic-programming step over
        the table it accumulated (children's UTILs + its variable costs) and the constraints it owns
-     - dpop_util_sem / dpop_choice_opt : the induction steps in flat form, for any node of any tree:
-       UTIL = optimum over ALL assignments of the subtree; locally optimal choices below x make
-       the global assignment an optimal completion below x.  (The induction over the tree and the
-       protocol invariant that feeds these steps from actual runs are not proved.)
+     - dpop_util_sem / dpop_choice_opt : the induction steps in flat form, for any node of any tree
      - dpop_value_opt, dpop_root_opt, dpop_value_forward : VALUE phase choices  (full, handler level)
-     - dpop_all_schedules_partial : for EVERY dcop, pseudo-tree input and schedule: finished and
-       value selection happen at most once per node, nothing is emitted after finished, every
-       selected value is a domain index and a finished node holds one. *)
-From PyDcop Require Import Base Net M_Dpop P_Dpop.
+     - dpop_all_schedules_partial : for EVERY dcop, even with an INVALID pseudo-tree input, and every
+       schedule: finished and value selection happen at most once per node, every selected value is
+       a domain index and a finished node holds one. *)
+From PyDcop Require Import Base Net M_Dpop P_Dpop M_DpopValid P_Dpop2Net P_Dpop2Tree P_Dpop2 P_Dpop2Valid.
+From Coq Require Import Permutation.
 
 (* ---- relation helpers *)
 Theorem sem_join : forall D u1 u2 a, in_dom D a (r_dims (join D u1 u2)) ->
@@ -160,4 +166,70 @@ Example dpop_flat_nonvacuous :
   map (cost_in ex_dcop [1; 2]) (ext ex_dcop [1; 2] [(0, 1)]) = [3; 6; 2; 4; 6; 11] /\
   map (cost_in ex_dcop [0; 1; 2]) (ext ex_dcop [0; 1; 2] []) = [6; 9; 5; 1; 3; 8; 3; 6; 2; 4; 6; 11] /\
   cost_in ex_dcop [0; 1; 2] [(0, 0); (1, 1); (2, 0)] = 1.
+Proof. vm_compute. repeat split; reflexivity. Qed.
+
+(* ================================================================== *)
+(*  every schedule, valid pseudo-tree: the headline theorem             *)
+(* ================================================================== *)
+(* soundness of the executable hypothesis: tree validity + the ownership filter is a partition *)
+Theorem dpop_check_valid : forall P, dpop_check P = true ->
+  dpop_valid P /\ Permutation (all_owned P) (cons_ids P) /\ NoDup (cons_ids P).
+Proof. exact dpop_check_sound. Qed.
+
+(* safety on EVERY schedule (complete or not): no handler of a tree node raises *)
+Theorem dpop_no_raise_all_schedules : forall P sched, dpop_valid P ->
+  forall n k, In (EvRaise n k) (snd (run (dpop_proto P) sched)) -> ~ In n (tree_ids P).
+Proof. exact no_raise_all_schedules. Qed.
+
+(* the global invariant behind it holds in every reachable configuration of every schedule *)
+Theorem dpop_invariant_all_schedules : forall P dep B, dvalid P dep B -> forall sched,
+  Inv P dep B (fst (run (dpop_proto P) sched)).
+Proof. intros P dep B V sched. exact (proj1 (run_inv P dep B V sched)). Qed.
+
+(* completeness of the schedule => every node finished, one finished / selection event each *)
+Theorem dpop_complete_all_finished : forall P sched, dpop_valid P ->
+  let r := run (dpop_proto P) sched in complete P (fst r) ->
+  forall x, In x (tree_ids P) ->
+    s_fin (w_st (nodes (fst r) x)) = true /\
+    count_finished x (snd r) = 1%nat /\ count_selected x (snd r) = 1%nat /\
+    exists v c, s_value (w_st (nodes (fst r) x)) = Some (v, c) /\ In (EvSelect x v c) (snd r) /\
+                0 <= v < Z.of_nat (dsize P x).
+Proof. exact complete_all_finished. Qed.
+
+(* optimality, every constraint counted at the node that keeps it *)
+Theorem dpop_optimal : forall P sched, dpop_valid P ->
+  let r := run (dpop_proto P) sched in complete P (fst r) ->
+  let sg := assignment P (fst r) in
+  in_dom (dsize P) sg (tree_ids P) /\
+  forall a, in_dom (dsize P) a (tree_ids P) -> mle (dc_mode P) (total_cost P sg) (total_cost P a).
+Proof. exact optimal_at_completion. Qed.
+
+(* ... which is the cost of the dcop when the ownership filter is a partition *)
+Theorem dpop_cost_is_dcop_cost : forall P a,
+  Permutation (all_owned P) (cons_ids P) -> NoDup (cons_ids P) -> total_cost P a = dcop_cost P a.
+Proof. exact total_cost_dcop. Qed.
+
+Theorem dpop_all_schedules : forall P sched, dpop_check P = true ->
+  let r := run (dpop_proto P) sched in
+  (forall n k, In (EvRaise n k) (snd r) -> ~ In n (tree_ids P)) /\
+  (complete P (fst r) ->
+     (forall x, In x (tree_ids P) ->
+        s_fin (w_st (nodes (fst r) x)) = true /\
+        count_finished x (snd r) = 1%nat /\ count_selected x (snd r) = 1%nat /\
+        exists v c, s_value (w_st (nodes (fst r) x)) = Some (v, c) /\ In (EvSelect x v c) (snd r) /\
+                    0 <= v < Z.of_nat (dsize P x)) /\
+     let sg := assignment P (fst r) in
+     in_dom (dsize P) sg (tree_ids P) /\
+     (forall a, in_dom (dsize P) a (tree_ids P) -> mle (dc_mode P) (dcop_cost P sg) (dcop_cost P a)) /\
+     is_best (dc_mode P) (map (dcop_cost P) (ext P (tree_ids P) [])) (dcop_cost P sg)).
+Proof. exact all_schedules. Qed.
+
+(* non-vacuity of the hypotheses: the 3-variable chain above passes the checker, its schedule is
+   complete, and the optimum the theorem speaks about is the cost 1 of the selected assignment *)
+Example dpop_all_schedules_nonvacuous :
+  dpop_check ex_dcop = true /\
+  completeb ex_dcop (fst (run (dpop_proto ex_dcop) ex_sched)) = true /\
+  assignment ex_dcop (fst (run (dpop_proto ex_dcop) ex_sched)) = [(0, 0); (1, 1); (2, 0)] /\
+  dcop_cost ex_dcop [(0, 0); (1, 1); (2, 0)] = 1 /\
+  map (dcop_cost ex_dcop) (ext ex_dcop [0; 1; 2] []) = [6; 9; 5; 1; 3; 8; 3; 6; 2; 4; 6; 11].
 Proof. vm_compute. repeat split; reflexivity. Qed.
